@@ -448,11 +448,11 @@ pub fn drive(tier: &str) -> i32 {
     let one_line: Vec<String> = vcore::slots::one_line_programs();
     groups.push(super::run_text_group(&mut run, &pool, "several block statements on one source line", &one_line, 10, &extra));
     let skeletons: Vec<String> = vcore::slots::block_skeletons(if quick { 1 } else { 2 });
-    let skeletons: Vec<String> = if quick { skeletons.into_iter().step_by(2).collect() } else { skeletons };
+    let skeletons: Vec<String> = if quick { skeletons.into_iter().step_by(3).collect() } else { skeletons };
     groups.push(super::run_text_group(&mut run, &pool, "block skeletons", &skeletons, 20, &coarse));
     let mut stmts: Vec<String> = vcore::slots::instantiate(if quick { 1 } else { 2 }).into_iter().map(|(_, s)| vcore::slots::program(&s)).collect();
     if quick {
-        stmts = stmts.into_iter().step_by(3).collect();
+        stmts = stmts.into_iter().step_by(6).collect();
     }
     groups.push(super::run_text_group(&mut run, &pool, "statement templates x operand menu", &stmts, 40, &coarse));
     // generated control programs (C01 axis A) printed by the canonical printer
